@@ -18,8 +18,10 @@ EXPLANATION = ("C12.a who-may-write: every store (attribute, subscript, augmente
                "a store reaching the soil, management, groundwater, weather, calendar or user-crop objects is a "
                "violation unless it is in the explicit exemption table. C12.b: the one object that table lets the step rewrite outside a season start (the filler crop used "
                "before the first season) is bound at initialisation only to a freshly constructed object or a copy - never to an object "
-               "shared with a season's crop, the user's crop or another configured structure. Decided for all inputs; does not depend "
-               "on run-time values.")
+               "shared with a season's crop, the user's crop or another configured structure. C12.g (= C06.d pairing; a season's crop "
+               "parameters change only at that season's start): the season reset, which rewrites Seasonal_Crop_List[season_counter], is "
+               "called only right after the counter has been advanced to the starting season (dominating increment in the same block, locals resolved). "
+               "Decided for all inputs; does not depend on run-time values.")
 
 PROTECTED = ("PARAM.Soil", "PARAM.IrrMngt", "PARAM.FallowIrrMngt", "PARAM.FieldMngt", "PARAM.FallowFieldMngt",
              "PARAM.z_gw", "PARAM.zGW_dates", "PARAM.water_table", "PARAM.WTMethod", "PARAM.CropChoices",
@@ -49,6 +51,9 @@ def protected(path: str) -> bool:
 
 
 def run(chk, prog, tier):
+    # C12.g (a season's crop parameters change only at that season's start): shared with C06.d
+    from .c06 import reset_paired_with_counter
+    reset_paired_with_counter(chk, prog, "C12.g")
     roles = step_roles(prog)
     nstores = 0
     allowed_used = set()
